@@ -5,9 +5,9 @@ EXPLANATION = ("Sequential contracts of the channel queue operations and of refe
 ASSUMPTIONS = [
     "R-lock: each body is verified as the critical section under its Mutex; interleavings of critical sections are covered by the history lemmas (any order of operations), lock acquisition/poisoning is not modelled",
     "Thread::deep_clone_value returns a structurally equal copy (assumed contract; see C13 for its share-or-copy guard)",
-    "lazy values: the three synchronous pieces of force are under contract (R-arm): the arm that starts the evaluation (its `async move` block replaced by a stand-in), the arms for a value that is being evaluated / already computed (the waiter's continuation replaced by a stand-in), and the failure arm of the computation. oneshot::channel/shared/clone are given their channel identity as assumed contracts; thread identity is the thread's address. The success arm of the async block, the wake-up of waiters and coroutine spawn/resume/yield are NOT covered",
+    "lazy values: the three synchronous pieces of force are under contract (R-arm): the arm that starts the evaluation (its `async move` block replaced by a stand-in), the arms for a value that is being evaluated / already computed (the waiter's continuation replaced by a stand-in), and the failure arm of the computation. oneshot::channel/shared/clone are given their channel identity as assumed contracts; thread identity is the thread's address. That the waiters are actually fired (the sender is consumed either way), the waiter continuation and coroutine spawn/resume/yield are NOT covered",
 ]
-NOT_UNDER_CONTRACT = ["vm/src/lazy.rs force: success arm of the async block (store the value, fire the waiters), the waiter continuation", "channel::resume/yield_/spawn", "the primitive wrapper recv in channel.rs (closure with `_` param is outside Verus's dialect)"]
+NOT_UNDER_CONTRACT = ["vm/src/lazy.rs force: that stored waiters are fired, the waiter continuation", "channel::resume/yield_/spawn", "the primitive wrapper recv in channel.rs (closure with `_` param is outside Verus's dialect)"]
 
 
 def v(unit, fn, clause, source=None):
@@ -32,5 +32,7 @@ def obligations(tier):
              clause="forced by the thread that is evaluating it => an error at once (loop), whichever thread created the value; forced by another thread => waits on the channel registered in the value, earlier registrations are kept; already computed => that value, state untouched"),
         dict(engine="verus", unit="lazy", function="force::thunk_start", name="C17/lazy/force_thunk_start", source="vm/src/lazy.rs::force (arm `Some(value) =>`, the async block replaced by a stand-in)",
              clause="before the computation starts the value is marked as being evaluated by the forcing thread, with no waiter: no later force finds the thunk again (at most one evaluation)"),
+        dict(engine="verus", unit="lazy", function="force::thunk_succeeded", name="C17/lazy/force_thunk_succeeded", source="vm/src/lazy.rs::force (arm: the computation succeeded)",
+             clause="a successful computation stores its value (a copy the lazy value's own thread may hold) and the state leaves `being evaluated` for good, so every later force returns that same value"),
         v("reference", "lemma_reference_last_write", "for every history of set/get: the cell holds (a copy of) the most recently stored value", "lemma over the contracts"),
     ]
